@@ -912,7 +912,7 @@ func steps() []stepDef {
 	mcv := func(f func(*world, bool) stepResult, mc bool) func(*world) stepResult {
 		return func(w *world) stepResult { return f(w, mc) }
 	}
-	return []stepDef{
+	return append([]stepDef{
 		{"call-ok", 4, stepCallOK},
 		{"push-ok", 3, stepPushOK},
 		{"call-handler-status", 3, stepCallHandlerStatus},
@@ -963,7 +963,7 @@ func steps() []stepDef {
 		{"heartbeat-manual", 2, stepHeartbeatCall},
 		{"heartbeat-bad-rate", 2, stepHeartbeatBadRate},
 		{"heartbeat-ping", 1, stepHeartbeatWait},
-	}
+	}, authIOSteps()...)
 }
 
 // ---------- monitors ----------
@@ -1337,6 +1337,9 @@ func main() {
 			perClass[d.class] += time.Since(t0)
 			core.Add("evaluations", 1)
 			core.Add("steps/"+d.class, 1)
+			if os.Getenv("C15_DEBUG") == "2" && strings.HasPrefix(d.class, "auth-re") {
+				fmt.Fprintf(os.Stderr, "note %s: %s\n", d.class, res.note)
+			}
 			if res.effective {
 				core.Add("steps_effective", 1)
 				core.Distinct("nontrivial", prev+">"+d.class)
